@@ -364,6 +364,181 @@ Qed.
 End PinnedProofs.
 
 (* ---------------------------------------------------------------------------------------- *)
+(* Pinned variant, interleaved: correct if writes are uninterrupted blocks (nobody reads or is  *)
+(* killed inside one), no environment interference, key injective up to doit                  *)
+Section PinnedInterleaved.
+Variables (expr key : Type).
+Variable expr_eqb : expr -> expr -> bool.
+Variable key_eqb : key -> key -> bool.
+Variable keyf : expr -> key.
+Variable doit : expr -> expr.
+Hypothesis key_eqb_spec : forall a b, key_eqb a b = true <-> a = b.
+Hypothesis key_inj : forall e e', keyf e = keyf e' -> doit e = doit e'.
+
+Notation PS := (pstate expr key).
+Notation Sys := (sys expr key).
+Notation Act := (action expr key).
+Notation runP := (run expr key expr_eqb key_eqb keyf doit Pinned).
+Notation stepP := (step expr key expr_eqb key_eqb keyf doit Pinned).
+Notation do_stepP := (do_step expr key expr_eqb key_eqb keyf doit Pinned).
+Notation updk := (upd expr key key_eqb).
+Notation pinv := (pinv expr key keyf doit).
+
+(* schedules in which a write (open-truncate, chunks, last chunk) is one uninterrupted block and
+   nobody is killed inside it; everything else interleaves freely *)
+Inductive atom :=
+| ASpawn (e : expr)
+| AStep (i : nat)
+| ACrash (i : nat)
+| AWrite (i : nat) (nchunks : nat).
+
+Definition in_write (p : PS) : bool :=
+  match p with PComputed _ _ _ | PWriting _ _ _ => true | _ => false end.
+
+Definition atom_acts (a : atom) : list Act :=
+  match a with
+  | ASpawn e => [Spawn e]
+  | AStep i => [Step i]
+  | ACrash i => [Crash i]
+  | AWrite i n => Step i :: repeat (Chunk i) n ++ [Step i]
+  end.
+
+Definition atom_ok (s : Sys) (a : atom) : Prop :=
+  match a with
+  | ASpawn _ => True
+  | AStep i => forall p, nth_error (procs s) i = Some p -> in_write p = false
+  | ACrash _ => True      (* between blocks nobody is inside a write, so a kill is harmless *)
+  | AWrite i _ => exists e k r, nth_error (procs s) i = Some (PComputed e k r)
+  end.
+
+Fixpoint sched_ok (s : Sys) (l : list atom) : Prop :=
+  match l with
+  | [] => True
+  | a :: t => atom_ok s a /\ sched_ok (runP (atom_acts a) s) t
+  end.
+
+Definition run_atoms (l : list atom) (s : Sys) : Sys :=
+  fold_left (fun s a => runP (atom_acts a) s) l s.
+
+Definition pproc_ok (d : key -> option (content expr)) (p : PS) : Prop :=
+  match p with
+  | PStart _ | PCrashed _ => True
+  | PKeyed e k | PMiss e k => k = keyf e
+  | PExists e k => k = keyf e /\ d k <> None
+  | PComputed e k r => k = keyf e /\ r = doit e
+  | PDone e v => v = VExpr (doit e)
+  | PWriting _ _ _ | PWritten _ _ _ | PRaised _ => False
+  end.
+
+Definition PInvS (s : Sys) : Prop := pinv (dir s) /\ Forall (pproc_ok (dir s)) (procs s).
+
+Lemma pproc_mono : forall d d' p, (forall k, d k <> None -> d' k <> None) -> pproc_ok d p -> pproc_ok d' p.
+Proof. intros d d' p H; destruct p; simpl; auto. intros (A & B); split; auto. Qed.
+
+Lemma astep_inv : forall s i, PInvS s ->
+  (forall p, nth_error (procs s) i = Some p -> in_write p = false) -> PInvS (do_stepP s i).
+Proof.
+  intros s i (Hd & Hp) Hg. unfold do_step.
+  destruct (nth_error (procs s) i) as [p|] eqn:Hn; [|split; auto].
+  pose proof (nth_Forall _ _ _ _ _ _ Hp Hn) as Hok. specialize (Hg _ eq_refl).
+  destruct p; simpl in Hok, Hg; try discriminate; try contradiction.
+  - split; simpl; auto. apply set_nth_Forall; simpl; auto.
+  - destruct (dir s k) as [c|] eqn:Hk; (split; simpl; auto; apply set_nth_Forall; simpl; auto).
+    split; auto. congruence.
+  - destruct Hok as (Ek & Hne). destruct (dir s k) as [c|] eqn:Hk; [|congruence].
+    destruct (Hd _ _ Hk) as (e' & Ek' & Ec). subst c.
+    split; simpl; auto. apply set_nth_Forall; simpl; auto. f_equal. symmetry. apply key_inj. congruence.
+  - split; simpl; auto. apply set_nth_Forall; simpl; auto.
+  - split; auto.
+  - split; auto.
+Qed.
+
+Lemma acrash_inv : forall s i, PInvS s -> PInvS (do_crash expr key s i).
+Proof.
+  intros s i (Hd & Hp). unfold do_crash.
+  destruct (nth_error (procs s) i) as [p|] eqn:Hn; [|split; auto].
+  destruct p; try (split; auto; fail);
+    (split; simpl; auto; apply set_nth_Forall; simpl; auto).
+Qed.
+
+Lemma set_nth_twice : forall (l : list PS) i a b,
+  set_nth expr key (set_nth expr key l i a) i b = set_nth expr key l i b.
+Proof. induction l; intros [|i] a0 b; simpl; auto. f_equal; auto. Qed.
+
+(* the chunks of a write block *)
+Lemma chunks_run : forall n s i e k r d,
+  nth_error (procs s) i = Some (PWriting e k r) ->
+  (forall k', dir s k' = updk d k (Some Garbage) k') ->
+  let s' := runP (repeat (Chunk i) n) s in
+  procs s' = procs s /\ (forall k', dir s' k' = updk d k (Some Garbage) k').
+Proof.
+  induction n; intros s i e k r d Hn Hd; cbv zeta.
+  - simpl; split; auto.
+  - assert (E : stepP s (Chunk i) = setd expr key key_eqb s k (Some Garbage)).
+    { simpl. unfold do_chunk. rewrite Hn. reflexivity. }
+    unfold run in *. cbn [repeat fold_left]. rewrite E.
+    destruct (IHn (setd expr key key_eqb s k (Some Garbage)) i e k r d) as (A & B); simpl; auto.
+    intros k'. unfold upd. rewrite Hd. unfold upd. destruct (key_eqb k k'); auto.
+Qed.
+
+Lemma awrite_inv : forall s i n, PInvS s ->
+  (exists e k r, nth_error (procs s) i = Some (PComputed e k r)) ->
+  PInvS (runP (atom_acts (AWrite i n)) s).
+Proof.
+  intros s i n (Hd & Hp) (e & k & r & Hn).
+  pose proof (nth_Forall _ _ _ _ _ _ Hp Hn) as (Ek & Er). simpl in Ek, Er.
+  unfold atom_acts, run. simpl fold_left. rewrite fold_left_app.
+  (* first step: open-truncate *)
+  assert (E1 : do_stepP s i = setdp expr key key_eqb s k (Some Garbage) i (PWriting e k r)).
+  { unfold do_step. rewrite Hn. destruct (dir s k) as [c|] eqn:Hk; auto.
+    destruct (Hd _ _ Hk) as (e' & _ & Ec). subst c. reflexivity. }
+  rewrite E1.
+  set (s1 := setdp expr key key_eqb s k (Some Garbage) i (PWriting e k r)).
+  assert (N1 : nth_error (procs s1) i = Some (PWriting e k r)).
+  { unfold s1, setdp; simpl. eapply set_nth_same; eauto. }
+  destruct (chunks_run n s1 i e k r (dir s) N1) as (A & B); [intros; reflexivity|].
+  fold (runP (repeat (Chunk i) n) s1). set (s2 := runP (repeat (Chunk i) n) s1) in *.
+  simpl fold_left.
+  assert (E3 : do_stepP s2 i = setdp expr key key_eqb s2 k (Some (Legacy r)) i (PDone e (VExpr r))).
+  { unfold do_step. rewrite A, N1. reflexivity. }
+  rewrite E3. split; simpl.
+  - intros k' c. unfold upd at 1. destruct (key_eqb k k') eqn:E.
+    + apply key_eqb_spec in E. subst k'. intros H; inversion H; subst. exists e; split; auto.
+    + rewrite B. unfold upd. rewrite E. apply Hd.
+  - rewrite A. unfold s1, setdp; simpl.
+    assert (Hmono : forall k', dir s k' <> None -> updk (dir s2) k (Some (Legacy r)) k' <> None).
+    { intros k' H. unfold upd at 1. destruct (key_eqb k k') eqn:E; [discriminate|].
+      rewrite B. unfold upd. rewrite E. auto. }
+    rewrite set_nth_twice.
+    apply set_nth_Forall; [|simpl; subst; auto].
+    eapply Forall_impl; [|exact Hp]. intros p. apply pproc_mono; auto.
+Qed.
+
+Lemma atom_inv : forall s a, PInvS s -> atom_ok s a -> PInvS (runP (atom_acts a) s).
+Proof.
+  intros s a H Hok. destruct a.
+  - destruct H as (Hd & Hp). split; simpl; auto. apply Forall_app; split; auto.
+  - apply astep_inv; auto.
+  - apply acrash_inv; auto.
+  - apply awrite_inv; auto.
+Qed.
+
+Lemma pinned_interleaved_l : forall l s, PInvS s -> sched_ok s l ->
+  let s' := run_atoms l s in
+  pinv (dir s')
+  /\ (forall i e v, nth_error (procs s') i = Some (PDone e v) -> v = VExpr (doit e))
+  /\ (forall i e, nth_error (procs s') i <> Some (PRaised e)).
+Proof.
+  induction l as [|a t IH]; intros s H Hs; simpl.
+  - destruct H as (Hd & Hp). repeat split; auto.
+    + intros i e v Hi. apply (nth_Forall _ _ _ _ _ _ Hp Hi).
+    + intros i e Hi. apply (nth_Forall _ _ _ _ _ _ Hp Hi).
+  - destruct Hs as (Ha & Ht). apply IH; auto. apply atom_inv; auto.
+Qed.
+End PinnedInterleaved.
+
+
+(* ---------------------------------------------------------------------------------------- *)
 (* concrete schedules (expressions and keys are numbers)                                    *)
 Section Witnesses.
 Notation nrunv v keyf doit := (run nat nat Nat.eqb Nat.eqb keyf doit v).
@@ -441,4 +616,17 @@ Proof. vm_compute; reflexivity. Qed.
 Lemma blocked_raises_l :
   procs (nrunv Robust kid dS ([EnvBlock 0] ++ call 0 0) (init empty_dir)) = [PRaised 0].
 Proof. vm_compute; reflexivity. Qed.
+
+(* an interleaved schedule that satisfies the guard of pinned_interleaved_l *)
+Definition pin_sched : list (atom nat) :=
+  [ASpawn nat 0; ASpawn nat 0; ASpawn nat 1; AStep nat 0; AStep nat 1; AStep nat 0; AStep nat 1; AStep nat 0;
+   AStep nat 2; AWrite nat 0 2; AStep nat 1; AStep nat 2; AWrite nat 1 0; AStep nat 2; ACrash nat 2].
+Lemma pin_sched_ok_l :
+  sched_ok nat nat Nat.eqb Nat.eqb kid dS (init empty_dir) pin_sched
+  /\ procs (run_atoms nat nat Nat.eqb Nat.eqb kid dS pin_sched (init empty_dir))
+     = [PDone 0 (VExpr (dS 0)); PDone 0 (VExpr (dS 0)); PCrashed 1].
+Proof.
+  split; [|vm_compute; reflexivity].
+  simpl. repeat split; try (intros p H; inversion H; reflexivity); eauto.
+Qed.
 End Witnesses.
